@@ -288,13 +288,12 @@ class Equals(ParametrizedDependentType):
     keyable_type = True
 
     def default_bound(self, *parameters):
-        types = tuple(dict.fromkeys(type(p) for p in parameters))
-        if len(types) == 1:
-            return types[0]
-        else:
-            from .types import Union
-
-            return Union[types]
+        # The nearest class that all the values are instances of
+        types = [type(p) for p in parameters]
+        for candidate in types[0].__mro__:
+            if all(issubclass(t, candidate) for t in types):
+                return candidate
+        return object  # pragma: no cover
 
     def check(self, value):
         return value in self.parameters
